@@ -5,6 +5,7 @@ set -e
 cd "$(dirname "$0")/.."
 VERIF=$(pwd)
 mkdir -p build/extract
+PYTHONPATH="$VERIF/harness" /venv/bin/python -m vh.gen > "$VERIF/build/gen.log" 2>&1 || { cat "$VERIF/build/gen.log"; exit 1; }
 cd coq
 if [ "$1" = "clean" ]; then
   [ -f Makefile ] && make clean >/dev/null 2>&1 || true
